@@ -519,7 +519,8 @@ func packTxtString(s string, msg []byte, offset int) (int, error) {
 func packOctetString(s string, msg []byte, offset int) (int, error) {
 	// Unlike a character-string an octet field runs to the end of the RDATA and
 	// is not limited to 255 octets; the loop below checks the buffer bounds.
-	if offset >= len(msg) {
+	// An empty field at the very end of the buffer needs no room.
+	if offset > len(msg) || offset == len(msg) && len(s) > 0 {
 		return offset, ErrBuf
 	}
 	for i := 0; i < len(s); i++ {
